@@ -515,6 +515,12 @@ func decode(thread *starlark.Thread, b *starlark.Builtin, args starlark.Tuple, k
 				if digits == "" || digits[0] == '0' && len(digits) > 1 && isdigit(digits[1]) {
 					fail("invalid number: %s", num)
 				}
+				// JSON, unlike strconv.ParseFloat, requires a digit
+				// on each side of a decimal point ("1." and "-.5" are invalid).
+				if k := strings.IndexByte(digits, '.'); k >= 0 &&
+					(k == 0 || k+1 == len(digits) || !isdigit(digits[k+1])) {
+					fail("invalid number: %s", num)
+				}
 
 				// parse literal
 				if float {
